@@ -306,3 +306,36 @@ Fixpoint sites (t : tree) {struct t} : list (N * scalar) :=
 
 Definition check_erase (src out : tree) : bool :=
   match erase out with Some [t] => tree_eqb t (norm src) | _ => false end.
+
+(* ---- docstring positions.  The erasure replaces `EMIT(evt, id, ret=e)` by `e` wherever it stands; Python reads the FIRST statement of a
+   function / class / module body as the docstring only when it is, syntactically, a string constant standing as a statement.  A wrapped
+   string in that position erases to a docstring although the rewritten code has none (and an emit statement put before a docstring moves
+   it out of its position).  `check_docs out` accepts the rewriter's output only when, for every function / class / module body in it,
+   a docstring at the head of the ERASED body is the head of the body AS WRITTEN (not compositional: no law of EraseSound.v sees it). *)
+Definition is_docstring_strict (t : tree) : bool :=
+  match t with T k [] [[T kc (SStr _ :: _) []]] => N.eqb k kExpr && N.eqb kc kConstant | _ => false end.
+Definition scope_body (k : N) (fs : list (list tree)) : option (list tree) :=
+  if N.eqb k kFunctionDef || N.eqb k kAsyncFunctionDef then nth_error fs 1
+  else if N.eqb k kClassDef then nth_error fs 2
+  else if N.eqb k kModule then nth_error fs 0
+  else None.
+Definition erase_stmts (l : list tree) : option (list tree) :=
+  (fix gol (u : list tree) {struct u} : option (list tree) :=
+     match u with
+     | [] => Some []
+     | x :: u' => match erase x, gol u' with Some a, Some b => Some (a ++ b) | _, _ => None end
+     end) l.
+Definition doc_head_ok (body : list tree) : bool :=
+  match erase_stmts body with
+  | Some (d' :: _) => if is_docstring_strict d' then match body with d :: _ => tree_eqb d d' | [] => false end else true
+  | _ => true
+  end.
+Fixpoint check_docs (t : tree) {struct t} : bool :=
+  match t with
+  | NoneNode => true
+  | T k sc fs =>
+      (fix gof (l : list (list tree)) : bool := match l with [] => true | f :: l' =>
+         (fix gol (u : list tree) : bool := match u with [] => true | x :: u' => check_docs x && gol u' end) f && gof l' end) fs
+      && match scope_body k fs with Some body => doc_head_ok body | None => true end
+  end.
+
